@@ -254,11 +254,9 @@ func clientSchemaLookup(client *client_j5pb.API, pkg, schema string) *schema_j5p
 		key = strings.TrimPrefix(pkg, root+".") + "." + schema
 	}
 	for _, p := range client.Packages {
-		if p.Name == root || p.Name == pkg {
+		// a schema of a sub-package is filed under its root package as "<sub>.<Name>"
+		if p.Name == root {
 			if s := p.Schemas[key]; s != nil {
-				return s
-			}
-			if s := p.Schemas[schema]; s != nil && p.Name == pkg {
 				return s
 			}
 		}
